@@ -72,6 +72,7 @@ def classify(cfg, obs):
 
 
 class _Base(common.Family):
+  pct_ok = False   # timed oracles: see harness.run_random
   prop = 'C06'
   max_steps = 3_000_000
 
